@@ -236,6 +236,25 @@ fn main() {
                             }
                         }
                         r.push_str(&format!("streq={},{}", a.id == b.id.to_string().as_str(), a.id.language == b.id.language.as_str()));
+                        // comparisons with strings that extend, truncate or re-case the canonical text, and the other operand's subtags
+                        let sa = a.id.to_string();
+                        let last_b = b.id.variants().last().map(|v| v.as_str().to_string()).unwrap_or_else(|| "nedis".into());
+                        r.push_str(&format!(
+                            ";streq2={},{},{},{},{},{}",
+                            a.id == sa.as_str(),
+                            a.id == format!("{}-{}", sa, last_b).as_str(),
+                            a.id == format!("{}-nedis-valencia", sa).as_str(),
+                            a.id == sa.to_ascii_uppercase().as_str(),
+                            a.id == &sa[..sa.len() - 1],
+                            a.id == b.to_string().as_str()
+                        ));
+                        r.push_str(&format!(
+                            ";subeq={:?},{:?},{}",
+                            a.id.script.map(|x| (b.id.script.map(|y| x == y.as_str()), x == format!("{}x", x.as_str()).as_str())),
+                            a.id.region.map(|x| (b.id.region.map(|y| x == y.as_str()), x == format!("{}1", x.as_str()).as_str())),
+                            a.id.variants().zip(b.id.variants()).map(|(x, y)| (x == y.as_str()) as u8).sum::<u8>()
+                        ));
+                        r.push_str(&format!(";pcmp={:?};h={:x},{:x}", a.partial_cmp(&b), h64(&a.id), h64(&a.extensions)));
                         (r, format!("{}|{}", dir_col(&a.id), dir_col(&b.id)), true)
                     }
                     _ => ("unparsable".into(), "-".into(), false),
